@@ -301,6 +301,11 @@ func (w *WebsocketConnection) writeMessageWithoutErrorHandling(messageType int, 
 func (w *WebsocketConnection) CloseDataConnection(closeCode int, reason string) {
 	// send a close message to the remote side if we have a reason
 	if reason != "" {
+		if !w.isConnClosed() {
+			w.muxConWrite.Lock()
+			_ = w.conn.SetWriteDeadline(time.Now().Add(writeWait))
+			w.muxConWrite.Unlock()
+		}
 		_ = w.writeMessageWithoutErrorHandling(websocket.CloseMessage, websocket.FormatCloseMessage(closeCode, reason))
 	}
 
